@@ -25,25 +25,78 @@ ASSUMPTIONS = [
 TRUSTED = ["translator props/c11.py:translate compares delimiter_size, the capacity/2 consume heuristic, the *4 shrink test and the doubling factor with command/src/{channel,buffer/growable}.rs"]
 
 
+def _fn_body(src, name):
+    """text of `fn <name>(...) ... { body }` (brace matched), or None"""
+    m = re.search(r"\bfn\s+%s\s*(<[^>]*>)?\s*\(" % re.escape(name), src)
+    if not m:
+        return None
+    i = src.find("{", m.end())
+    if i < 0:
+        return None
+    depth, j = 0, i
+    while j < len(src):
+        if src[j] == "{":
+            depth += 1
+        elif src[j] == "}":
+            depth -= 1
+            if depth == 0:
+                return src[i + 1:j]
+        j += 1
+    return None
+
+
 def translate():
-    """T-const: the constants the model hard-codes must still be the source's."""
+    """T-const: the constants the model hard-codes must still be the source's.  A construct that is no longer
+    recognised is reported as `unreadable:` (see TRANSLATE_FALLBACK); a recognised construct carrying another
+    value is a hard failure."""
     fails = []
-    ch = open(os.path.join(vlib.REPO, "command/src/channel.rs")).read()
-    gb = open(os.path.join(vlib.REPO, "command/src/buffer/growable.rs")).read()
-    m = re.search(r"pub const fn delimiter_size\(\) -> usize \{\s*(.*?)\s*\}", ch, re.S)
-    if not m or "size_of::<usize>()" not in m.group(1):
-        fails.append("channel.rs: delimiter_size() is no longer size_of::<usize>() (model: 8)")
-    if "usize::from_le_bytes(delimiter)" not in ch or "payload_len.to_le_bytes()" not in ch:
-        fails.append("channel.rs: length prefix is no longer a little-endian usize on both sides")
-    if not re.search(r"available_data\(\)\s*\*\s*4\s*<\s*self\.initial_buffer_size", ch):
-        fails.append("channel.rs: try_shrink_front_buf no longer tests available_data*4 < initial_buffer_size")
-    if not re.search(r"current_capacity\.saturating_mul\(2\)", ch):
-        fails.append("channel.rs: grow_size no longer doubles")
-    if not re.search(r"self\.position\s*>\s*self\.capacity\s*/\s*2", gb):
-        fails.append("growable.rs: consume no longer shifts when position > capacity/2")
-    if not re.search(r"self\.available_space\(\)\s*<\s*self\.available_data\(\)\s*\+\s*cnt", gb):
-        fails.append("growable.rs: fill no longer shifts when available_space < available_data + cnt")
+    ch = re.sub(r"//[^\n]*", "", open(os.path.join(vlib.REPO, "command/src/channel.rs")).read())
+    gb = re.sub(r"//[^\n]*", "", open(os.path.join(vlib.REPO, "command/src/buffer/growable.rs")).read())
+    # 1. the length prefix is a usize (8 bytes on the 64-bit targets the model covers) ...
+    body = _fn_body(ch, "delimiter_size")
+    if body is None:
+        fails.append("unreadable: channel.rs: fn delimiter_size not found (model: 8 = size_of::<usize>())")
+    elif not re.fullmatch(r"\s*(std::)?(mem::)?size_of::<usize>\(\)\s*", body):
+        fails.append("channel.rs: delimiter_size() is no longer size_of::<usize>() (model: 8): %r" % body.strip()[:80])
+    # 2. ... little-endian on both sides
+    if re.search(r"(from|to)_(be|ne)_bytes", ch):
+        fails.append("channel.rs: a big-endian / native-endian conversion appeared (model: little-endian length prefix on both sides)")
+    elif not (re.search(r"usize::from_le_bytes\(", ch) and re.search(r"\.to_le_bytes\(\)", ch)):
+        fails.append("unreadable: channel.rs: usize::from_le_bytes / .to_le_bytes() not found (model: little-endian usize prefix)")
+    # 3. front buffer shrinks when data*4 < initial
+    body = _fn_body(ch, "try_shrink_front_buf")
+    m = body and re.search(r"\*\s*(\d+)\s*<\s*(self\.)?initial_buffer_size|initial_buffer_size\s*>\s*(\d+)\s*\*|\*\s*(\d+)\s*<\s*\w+", body)
+    if not m:
+        fails.append("unreadable: channel.rs: try_shrink_front_buf: the `available_data * 4 < initial_buffer_size` test not found")
+    elif [g for g in (m.group(1), m.group(3), m.group(4)) if g][0] != "4":
+        fails.append("channel.rs: try_shrink_front_buf no longer tests available_data*4 < initial_buffer_size (model: 4)")
+    # 4. growth doubles
+    m = re.search(r"saturating_mul\((\d+)\)|checked_mul\((\d+)\)|\bcurrent_capacity\s*\*\s*(\d+)", ch)
+    if not m:
+        fails.append("unreadable: channel.rs: the growth factor (current_capacity.saturating_mul(2)) not found")
+    elif [g for g in m.groups() if g][0] != "2":
+        fails.append("channel.rs: grow_size no longer doubles (model: 2)")
+    # 5. consume shifts past half the capacity
+    body = _fn_body(gb, "consume")
+    m = body and re.search(r"position\s*(>=|>)\s*(self\.)?capacity\s*/\s*(\d+)", body)
+    if not m:
+        fails.append("unreadable: growable.rs: consume: the `position > capacity / 2` shift test not found")
+    elif (m.group(1), m.group(3)) != (">", "2"):
+        fails.append("growable.rs: consume no longer shifts exactly when position > capacity/2")
+    # 6. fill shifts when the free tail is smaller than data + cnt
+    body = _fn_body(gb, "fill")
+    m = body and re.search(r"available_space\(\)\s*(<=|<)\s*(self\.)?available_data\(\)\s*\+\s*\w+", body)
+    if not m:
+        fails.append("unreadable: growable.rs: fill: the `available_space() < available_data() + cnt` shift test not found")
+    elif m.group(1) != "<":
+        fails.append("growable.rs: fill no longer shifts exactly when available_space < available_data + cnt")
     return fails
+
+
+TRANSLATE_FALLBACK = ("every fact the translator reads (8-byte little-endian length prefix, *4 shrink test, doubling growth, "
+                      "capacity/2 consume shift, fill shift) determines the buffer capacity / available_data / available_space "
+                      "that the driver prints after EVERY operation and the correspondence check compares with the model, on "
+                      "histories whose message sizes are drawn at those very boundaries (props/c11.py msg_size / pick_sizes)")
 
 
 # ---------------------------------------------------------------------------
